@@ -2,7 +2,12 @@ import facts
 
 
 def configs(tier, quick=('std',), thorough=('std', 'mocks', 'nostd-spin', 'nostd')):
-    return list(quick if tier == 'quick' else thorough)
+    """feature configurations a property is decided on. `full` = the default features plus every additive one (critical-section, spin-lock,
+    fragile, all mock-* features): cargo features are additive, so code keyed on `critical-section` must also be right when `std` is on."""
+    cs = list(quick if tier == 'quick' else thorough)
+    if tier != 'quick' and 'full' not in cs and 'nostd' in cs:
+        cs.append('full')
+    return cs
 
 
 def load(chk, config):
